@@ -75,7 +75,13 @@ func repoComponent(t *rapid.T) string {
 	}
 	s := strOf(lowerAlnum, 1, 5).Draw(t, "head")
 	for i, n := 0, rapid.IntRange(0, 2).Draw(t, "groups"); i < n; i++ {
-		s += rapid.SampledFrom([]string{".", "_", "__", "-", "--"}).Draw(t, "sep") + strOf(lowerAlnum, 1, 4).Draw(t, "tail")
+		tail := strOf(lowerAlnum, 1, 4).Draw(t, "tail")
+		// A valid component may end (or continue) with a layout word behind a separator, e.g.
+		// team_uploads, base__layers, ci-manifests.x: only whole segments are layout markers.
+		if rapid.IntRange(0, 3).Draw(t, "wordtail") == 0 {
+			tail = rapid.SampledFrom([]string{"uploads", "layers", "manifests", "repositories", "blobs", "tags"}).Draw(t, "tailword")
+		}
+		s += rapid.SampledFrom([]string{".", "_", "__", "-", "--"}).Draw(t, "sep") + tail
 	}
 	return s
 }
